@@ -51,6 +51,8 @@ def ref_frames(stream: bytes):
         if i + hdr > n:
             return out, True
         ln = int.from_bytes(stream[i + 1 + off:i + hdr], 'little')
+        if t == 0x05:
+            ln &= 0x3FFF  # ISO: Data_Total_Length is 14 bits, the two bits above it are reserved (ignored on receipt)
         if i + hdr + ln > n:
             return out, True
         out.append((i, i + hdr + ln))
@@ -61,14 +63,17 @@ def ref_frames(stream: bytes):
 def _packet(rng, big_ok):
     t = rng.choice([0x01, 0x02, 0x03, 0x04, 0x05, 0x04, 0x02])
     off, size = INFO[t]
-    fam = [0, 1, 2, 254, 255] if size == 1 else [0, 1, 255, 256, 257, 1021] + ([65535] if big_ok else [])
+    fam = [0, 1, 2, 254, 255] if size == 1 else [0, 1, 255, 256, 257, 1021] + ([65535 if t != 0x05 else 16383] if big_ok else [])
     ln = rng.choice(fam + [rng.randint(0, 40)])
     r = rng.random()
     if r < 0.4:
         body = bytes(rng.choice([1, 2, 3, 4, 5, 0, 255]) for _ in range(ln))
     else:
         body = bytes(rng.getrandbits(8) for _ in range(ln)) if ln < 5000 else bytes([rng.getrandbits(8)]) * ln
-    hdr = bytes(rng.getrandbits(8) for _ in range(off)) + ln.to_bytes(size, 'little')
+    lf = ln
+    if t == 0x05 and rng.random() < 0.15:
+        lf |= rng.choice([0x4000, 0x8000, 0xC000])  # reserved bits set by the sender: every framer ignores them alike
+    hdr = bytes(rng.getrandbits(8) for _ in range(off)) + lf.to_bytes(size, 'little')
     return bytes([t]) + hdr + body
 
 
